@@ -1637,7 +1637,22 @@ func runHistory(c *hx.Ctx, r *hx.Rng, idx, maxOps int, purge bool) error {
 	if h.dropSome && h.afterDrop {
 		c.Sample(fmt.Sprintf("history %d ops=%s walParts=%d measurements=%v finding-precondition=%q", idx, h.kinds, h.nParts, h.msts, h.taint))
 	}
-	return h.sh.Close()
+	h.closeShard()
+	return nil
+}
+
+// closeShard is the clean shutdown at the end of a history: it must succeed whatever was dropped.
+func (h *history) closeShard() {
+	var err error
+	perr := hx.Safe(func() { err = h.sh.Close() })
+	ans := "ok"
+	if perr != "" || err != nil {
+		ans = errText(perr, err)
+	}
+	line := h.c.Emit("close", ans)
+	if ans != "ok" {
+		h.c.Violation(line, h.taint, fmt.Sprintf("history %d (%s): the clean shutdown of the shard failed after the drops: %s", h.idx, h.kinds, ans))
+	}
 }
 
 func Run(c *hx.Ctx) error {
@@ -1772,5 +1787,6 @@ func runDirected(c *hx.Ctx, idx int, script string) error {
 	}
 	h.doMergeEnd()
 	c.Case(fmt.Sprintf("directed:%d", idx), true)
-	return h.sh.Close()
+	h.closeShard()
+	return nil
 }
